@@ -829,3 +829,106 @@ def list_builder(fn, name):
             return None
         env = env2
     return _txt(loop.iter), entries
+
+
+def fmt_parts(fn, e, keep=()):
+    """a string-building expression as a list of parts: literal text (str) and ("expr", canonical text) for interpolated values.
+    Handles f-strings, "..{}..".format(a, b) (auto / numbered positional fields, no format specs), "+" chains and
+    "..%s.." % x.  Adjacent literals are merged.  None when the expression is something else."""
+    import copy
+    if fn is not None:
+        e = _Inline(single_defs(fn), keep).visit(copy.deepcopy(e))
+
+    def lit(x):
+        return isinstance(x, ast.Constant) and isinstance(x.value, str)
+
+    def rec(x):
+        if lit(x):
+            return [x.value]
+        if isinstance(x, ast.JoinedStr):
+            out = []
+            for v in x.values:
+                if lit(v):
+                    out.append(v.value)
+                elif isinstance(v, ast.FormattedValue) and v.format_spec is None and v.conversion in (-1, 115):
+                    out.append(("expr", canon_ast(v.value)))
+                else:
+                    return None
+            return out
+        if isinstance(x, ast.BinOp) and isinstance(x.op, ast.Add):
+            a, b = rec(x.left), rec(x.right)
+            if a is None and b is None:
+                return None
+            return (a if a is not None else [("expr", canon_ast(x.left))]) + (b if b is not None else [("expr", canon_ast(x.right))])
+        if isinstance(x, ast.Call) and isinstance(x.func, ast.Attribute) and x.func.attr == "format" and lit(x.func.value) and not x.keywords:
+            import string
+            out, auto = [], 0
+            try:
+                for text, field, spec, conv in string.Formatter().parse(x.func.value.value):
+                    if text:
+                        out.append(text)
+                    if field is None:
+                        continue
+                    if spec or conv not in (None, "s"):
+                        return None
+                    if field == "":
+                        idx = auto
+                        auto += 1
+                    elif field.isdigit():
+                        idx = int(field)
+                    else:
+                        return None
+                    if idx >= len(x.args):
+                        return None
+                    out.append(("expr", canon_ast(x.args[idx])))
+            except ValueError:
+                return None
+            return out
+        if isinstance(x, ast.BinOp) and isinstance(x.op, ast.Mod) and lit(x.left):
+            args = list(x.right.elts) if isinstance(x.right, ast.Tuple) else [x.right]
+            pieces = x.left.value.split("%s")
+            if len(pieces) != len(args) + 1 or "%" in "".join(pieces).replace("%%", ""):
+                return None
+            out = []
+            for i, pz in enumerate(pieces):
+                if pz:
+                    out.append(pz.replace("%%", "%"))
+                if i < len(args):
+                    out.append(("expr", canon_ast(args[i])))
+            return out
+        if isinstance(x, ast.Call) and isinstance(x.func, ast.Name) and x.func.id == "str" and len(x.args) == 1 and not x.keywords:
+            return [("expr", canon_ast(x.args[0]))]
+        return None
+
+    parts = rec(e)
+    if parts is None:
+        return None
+    merged = []
+    for pz in parts:
+        if isinstance(pz, str) and merged and isinstance(merged[-1], str):
+            merged[-1] += pz
+        elif pz != "":
+            merged.append(pz)
+    return merged
+
+
+def dict_items(fn, e):
+    """{key: canonical value text} of a dict-valued expression: a dict literal with constant keys, `dict(k=v, ...)`, or a
+    single-definition local bound to one of these; None otherwise"""
+    defs = single_defs(fn) if fn is not None else {}
+    for _ in range(3):
+        if isinstance(e, ast.Name) and e.id in defs:
+            e = defs[e.id]
+        else:
+            break
+    if isinstance(e, ast.Name) and fn is not None:
+        # an accumulator: d = {...} / dict(...) assigned once even when mutated later is not followed
+        cands = [a.value for a in own_nodes(fn) if isinstance(a, (ast.Assign, ast.AnnAssign)) and a.value is not None
+                 and norm(a.targets[0] if isinstance(a, ast.Assign) else a.target) == e.id]
+        if len(cands) == 1:
+            e = cands[0]
+    if isinstance(e, ast.Dict) and all(isinstance(k, ast.Constant) for k in e.keys):
+        return {k.value: canon_expr(fn, v) if fn is not None else canon_ast(v) for k, v in zip(e.keys, e.values)}
+    if isinstance(e, ast.Call) and isinstance(e.func, ast.Name) and e.func.id == "dict" and not e.args and all(k.arg for k in e.keywords):
+        return {k.arg: canon_expr(fn, k.value) if fn is not None else canon_ast(k.value) for k in e.keywords}
+    return None
